@@ -323,6 +323,7 @@ SOLVE_FUNCS = [
     ("roll_pass/two_roll_pass.py", "TwoRollPass", ["get_root_hook_results"]),
     ("roll_pass/three_roll_pass.py", "ThreeRollPass", ["get_root_hook_results", "reevaluate_cache"]),
     ("roll/roll.py", "Roll", ["reevaluate_cache"]),
+    ("roll_pass/base.py", "", ["rotator_factory"]),          # module level: the pre-processor factory of a roll pass
 ]
 
 
@@ -370,15 +371,17 @@ def solve_writes(repo):
     missing = []
     for rel, cls, fns in SOLVE_FUNCS:
         try:
-            node = _find_class(_parse(repo, rel), cls)
+            node = _find_class(_parse(repo, rel), cls) if cls else _parse(repo, rel)
         except Gap:
             missing.append(cls)
             continue
         for name in fns:
             fn = _find_func(node, name)
             if fn is None:
+                if not cls:
+                    missing.append(name)
                 continue                  # not overridden in this class
-            res.extend(writes_of(fn, f"{cls}.{name}"))
+            res.extend(writes_of(fn, f"{cls}.{name}" if cls else name))
     if missing:
         raise Gap("classes not found: " + ", ".join(missing))
     return res
